@@ -1,4 +1,4 @@
-(* C14: StatesManager.project_index_to_state_increment, driven with the indices 0,1,2,... (as
+(* C14: StatesManager.project_index_to_state_increment (the repaired method), driven with the ranks 0,1,2,... (as
    InversionMethod does), returns the admissible indices of [0, maxf] -- those i with
    outside (project i) = false -- each exactly once, in increasing order, and then signals
    exhaustion forever.  With an injective project: every admissible state exactly once. *)
@@ -128,37 +128,37 @@ Section SM.
       rewrite IH. destruct (sm_goods k (a + 1)); [f_equal; lia | reflexivity].
   Qed.
 
-  (* one call whose x does not overtake the skip pointer and is not a reset *)
-  Lemma sm_step_index_spec last x ml : x <= last + 1 -> x <> ml ->
-    sm_step_index State project outside maxf last x ml =
-      match sm_G (last + 1) with
-      | [] => (None, Z.max (last + 1) (maxf + 1))
-      | i :: _ => (Some i, i)
+  (* one call whose x does not overtake the skip pointer and is not a restart *)
+  Lemma sm_step_index_spec st x ml : x <= fst st + 1 -> x <> ml ->
+    sm_step_index State project outside maxf st x ml =
+      match sm_G (fst st + 1) with
+      | [] => (None, (Z.max (fst st + 1) (maxf + 1), snd st))
+      | i :: _ => (Some i, (i, if (x <? ml) || (ml <? 0) then i else snd st))
       end.
   Proof.
-    intros Hx Hml. unfold sm_step_index.
+    intros Hx Hml. unfold sm_step_index. cbn zeta.
     destruct (x =? ml) eqn:E; [apply Z.eqb_eq in E; contradiction|].
-    rewrite Z.max_r by lia. rewrite sm_search_goods. fold (sm_G (last + 1)).
-    destruct (sm_G (last + 1)); [f_equal; lia | reflexivity].
+    rewrite Z.max_r by lia. rewrite sm_search_goods. fold (sm_G (fst st + 1)).
+    destruct (sm_G (fst st + 1)); cbn [fst snd]; [f_equal; f_equal; lia | reflexivity].
   Qed.
 
-  Lemma sm_run_index_expect : forall calls last b, b <= last + 1 -> sm_calls_ok b calls ->
-    sm_run_index State project outside maxf last calls = sm_expect (length calls) (sm_G (last + 1)).
+  Lemma sm_run_index_expect : forall calls st b, b <= fst st + 1 -> sm_calls_ok b calls ->
+    sm_run_index State project outside maxf st calls = sm_expect (length calls) (sm_G (fst st + 1)).
   Proof.
-    induction calls as [|c r IH]; intros last b Hb Hok; [reflexivity|].
+    induction calls as [|c r IH]; intros st b Hb Hok; [reflexivity|].
     destruct Hok as [Hx [Hml Hok]]. cbn [sm_run_index length sm_expect]. cbn zeta.
-    rewrite (sm_step_index_spec last (fst c) (snd c)) by (assumption || lia).
-    destruct (sm_G (last + 1)) as [|i rest] eqn:EG; cbn [fst snd].
-    - f_equal. rewrite (IH _ (b + 1)) by (assumption || lia).
+    rewrite (sm_step_index_spec st (fst c) (snd c)) by (assumption || lia).
+    destruct (sm_G (fst st + 1)) as [|i rest] eqn:EG; cbn [fst snd].
+    - f_equal. rewrite (IH _ (b + 1)) by (assumption || (cbn [fst]; lia)). cbn [fst].
       rewrite sm_G_empty by lia. reflexivity.
     - destruct (sm_G_head _ _ _ EG) as [Hi [_ Hrest]]. f_equal.
-      rewrite (IH i (b + 1)) by (assumption || lia). rewrite Hrest. reflexivity.
+      rewrite (IH _ (b + 1)) by (assumption || (cbn [fst]; lia)). cbn [fst]. rewrite Hrest. reflexivity.
   Qed.
 
-  Lemma sm_run_lift : forall calls last,
-    sm_run State project outside maxf last calls =
-      map (sm_lift State project) (sm_run_index State project outside maxf last calls).
-  Proof. induction calls as [|c r IH]; intros last; [reflexivity|]. cbn. rewrite IH. reflexivity. Qed.
+  Lemma sm_run_lift : forall calls st,
+    sm_run State project outside maxf st calls =
+      map (sm_lift State project) (sm_run_index State project outside maxf st calls).
+  Proof. induction calls as [|c r IH]; intros st; [reflexivity|]. cbn. rewrite IH. reflexivity. Qed.
 
   Lemma sm_incr_calls_ok ml : (forall x, ml x <> x) -> forall n s b, Z.of_nat s <= b ->
     sm_calls_ok b (map (fun k => (Z.of_nat k, ml (Z.of_nat k))) (seq s n)).
@@ -170,16 +170,16 @@ Section SM.
 
   (* ---- any history in which x never overtakes the number of calls made and never resets ---- *)
   Theorem sm_history_indices : forall calls, sm_calls_ok 0 calls ->
-    sm_run_index State project outside maxf (-1) calls =
+    sm_run_index State project outside maxf sm_init calls =
       firstn (length calls) (map Some sm_good ++ repeat None (length calls)).
   Proof.
-    intros calls Hok. rewrite (sm_run_index_expect calls (-1) 0) by (assumption || lia).
-    change (-1 + 1) with 0. rewrite sm_G_0. apply sm_expect_firstn. lia.
+    intros calls Hok. rewrite (sm_run_index_expect calls sm_init 0) by (assumption || (cbn; lia)).
+    change (fst sm_init + 1) with 0. rewrite sm_G_0. apply sm_expect_firstn. lia.
   Qed.
 
   (* ---- the increasing drive x = 0, 1, ..., n-1 (max_logged = ml x never equal to x) ---- *)
   Theorem sm_increasing_indices : forall ml, (forall x, ml x <> x) -> forall n,
-    sm_run_index State project outside maxf (-1) (sm_incr_calls ml n) =
+    sm_run_index State project outside maxf sm_init (sm_incr_calls ml n) =
       firstn n (map Some sm_good ++ repeat None n).
   Proof.
     intros ml Hml n. pose proof (sm_history_indices (sm_incr_calls ml n)) as H.
@@ -189,7 +189,7 @@ Section SM.
 
   (* the j-th call (0-based) returns the j-th admissible index, or exhaustion if there is none left *)
   Theorem sm_increasing_nth : forall ml, (forall x, ml x <> x) -> forall n j, (j < n)%nat ->
-    nth_error (sm_run_index State project outside maxf (-1) (sm_incr_calls ml n)) j
+    nth_error (sm_run_index State project outside maxf sm_init (sm_incr_calls ml n)) j
       = Some (nth_error sm_good j).
   Proof.
     intros ml Hml n j Hj. rewrite sm_increasing_indices by assumption.
@@ -200,7 +200,7 @@ Section SM.
      (and every later one) signals exhaustion *)
   Theorem sm_increasing_exhaustion : forall ml, (forall x, ml x <> x) -> forall n,
     (length sm_good <= n)%nat ->
-    sm_run_index State project outside maxf (-1) (sm_incr_calls ml n) =
+    sm_run_index State project outside maxf sm_init (sm_incr_calls ml n) =
       map Some sm_good ++ repeat None (n - length sm_good).
   Proof.
     intros ml Hml n Hn. rewrite sm_increasing_indices by assumption.
@@ -218,7 +218,7 @@ Section SM.
   (* each admissible index is returned by exactly one call, and no other index is returned *)
   Theorem sm_index_exactly_once : forall ml, (forall x, ml x <> x) -> forall n i,
     (length sm_good <= n)%nat ->
-    count_occ optZ_eq_dec (sm_run_index State project outside maxf (-1) (sm_incr_calls ml n)) (Some i)
+    count_occ optZ_eq_dec (sm_run_index State project outside maxf sm_init (sm_incr_calls ml n)) (Some i)
       = if (0 <=? i) && (i <=? maxf) && negb (outside (project i)) then 1%nat else 0%nat.
   Proof.
     intros ml Hml n i Hn. rewrite sm_increasing_exhaustion by assumption.
@@ -240,7 +240,7 @@ Section SM.
   (* ---- states: what the code returns ---- *)
   Theorem sm_increasing_states : forall ml, (forall x, ml x <> x) -> forall n,
     (length sm_good <= n)%nat ->
-    sm_run State project outside maxf (-1) (sm_incr_calls ml n) =
+    sm_run State project outside maxf sm_init (sm_incr_calls ml n) =
       map (fun i => (Some (project i), false)) sm_good ++ repeat (None, true) (n - length sm_good).
   Proof.
     intros ml Hml n Hn. rewrite sm_run_lift, sm_increasing_exhaustion by assumption.
@@ -257,7 +257,7 @@ Section SM.
      return (None, true). *)
   Theorem sm_states_exactly_once :
     (forall ml, (forall x, ml x <> x) -> forall n, (length sm_good <= n)%nat ->
-       sm_run State project outside maxf (-1) (sm_incr_calls ml n) =
+       sm_run State project outside maxf sm_init (sm_incr_calls ml n) =
          map (fun i => (Some (project i), false)) sm_good ++ repeat (None, true) (n - length sm_good))
     /\ NoDup (map project sm_good)
     /\ (forall s, In s (map project sm_good) <->
@@ -287,7 +287,7 @@ Theorem sm_szudzik_zd2_exactly_once (outside : Z * Z -> bool) (maxf : Z) :
   let project := zd2_project szudzik_projection2d 1 in
   let good := sm_good (Z * Z) project outside maxf in
   (forall ml, (forall x, ml x <> x) -> forall n, (length good <= n)%nat ->
-     sm_run (Z * Z) project outside maxf (-1) (sm_incr_calls ml n) =
+     sm_run (Z * Z) project outside maxf sm_init (sm_incr_calls ml n) =
        map (fun i => (Some (project i), false)) good ++ repeat (None, true) (n - length good))
   /\ NoDup (map project good)
   /\ (forall s, In s (map project good) <->
@@ -300,17 +300,51 @@ Definition sm_ex_outside (s : Z * Z) : bool := (1 <? Z.abs (fst s)) || (2 <? Z.a
 Example sm_nonvacuous :
   let project := zd2_project szudzik_projection2d 1 in
   sm_good (Z * Z) project sm_ex_outside 30 = [0; 1; 2; 3; 4; 5; 6; 7; 8; 9; 10; 15; 16; 17]
-  /\ sm_run_index (Z * Z) project sm_ex_outside 30 (-1) (sm_incr_calls (fun _ => 1000000) 17)
+  /\ sm_run_index (Z * Z) project sm_ex_outside 30 sm_init (sm_incr_calls (fun _ => 1000000) 17)
      = [Some 0; Some 1; Some 2; Some 3; Some 4; Some 5; Some 6; Some 7; Some 8; Some 9; Some 10; Some 15;
         Some 16; Some 17; None; None; None]
-  /\ map fst (sm_run (Z * Z) project sm_ex_outside 30 (-1) (sm_incr_calls (fun _ => 1000000) 16))
+  /\ map fst (sm_run (Z * Z) project sm_ex_outside 30 sm_init (sm_incr_calls (fun _ => 1000000) 16))
      = map Some [(0, 1); (1, 0); (1, 1); (0, -1); (1, -1); (-1, 0); (-1, 1); (-1, -1); (0, 2); (1, 2); (-1, 2);
                  (0, -2); (1, -2); (-1, -2)] ++ [None; None]
-  /\ map snd (sm_run (Z * Z) project sm_ex_outside 30 (-1) (sm_incr_calls (fun _ => 1000000) 16))
+  /\ map snd (sm_run (Z * Z) project sm_ex_outside 30 sm_init (sm_incr_calls (fun _ => 1000000) 16))
      = repeat false 14 ++ [true; true].
 Proof. vm_compute. repeat split. Qed.
 
-(* ================= every call, resets included: exact characterisation ================= *)
+(* ================= every call, restarts included ================= *)
+(* the protocol of InversionMethod: x is the rank of the requested admissible state.  After a call with x = prev the
+   next call has x = prev + 1 (next state), or x = M after the storage of M states is full (restart of a sample:
+   M <= prev), or x = prev again after an exhaustion; max_logged = M (the very first call of InversionMethod.__init__
+   passes the default -1).  n = number of admissible indices. *)
+Fixpoint sm_protocol (M n prev : Z) (calls : list (Z * Z)) : Prop :=
+  match calls with
+  | [] => True
+  | c :: r => (snd c = M \/ (snd c < 0 /\ fst c < M))
+              /\ (fst c = prev + 1 \/ (fst c = M /\ M <= prev) \/ (fst c = prev /\ 0 <= prev /\ n <= prev))
+              /\ sm_protocol M n (fst c) r
+  end.
+
+Lemma skipn_head_nth {A} (l : list A) : forall n,
+  match skipn n l with [] => None | i :: _ => Some i end = nth_error l n.
+Proof. induction l as [|a l IH]; intros [|n]; cbn; try reflexivity. apply IH. Qed.
+
+Lemma skipn_tail_S {A} (l : list A) : forall n x r, skipn n l = x :: r -> skipn (S n) l = r.
+Proof.
+  induction l as [|y l IH]; intros [|n] x r H; cbn in *; try discriminate.
+  - inversion H. reflexivity.
+  - apply (IH n x r H).
+Qed.
+
+Lemma skipn_nil_S {A} (l : list A) : forall n, skipn n l = [] -> skipn (S n) l = [].
+Proof. induction l as [|y l IH]; intros [|n] H; cbn in *; try reflexivity; try discriminate. apply IH. exact H. Qed.
+
+Lemma map_nth_error_seq_expect : forall n g, map (nth_error g) (seq 0 n) = sm_expect n g.
+Proof.
+  induction n as [|n IH]; intros g; [reflexivity|].
+  cbn [seq map sm_expect]. rewrite <- seq_shift, map_map. destruct g as [|i r]; cbn [nth_error].
+  - f_equal. rewrite <- (IH []). apply map_ext. intros [|k]; reflexivity.
+  - f_equal. rewrite <- (IH r). reflexivity.
+Qed.
+
 Section SMReset.
   Variable State : Type.
   Variable project : Z -> State.
@@ -318,100 +352,156 @@ Section SMReset.
   Variable maxf : Z.
   Notation G := (sm_G State project outside maxf).
   Notation good := (sm_good State project outside maxf).
-  Notation ok := (sm_ok State project outside).
 
-  (* ANY call: the search starts at xx = max x (last' + 1), last' = -1 on a reset (x = max_logged); it returns the
-     first admissible index >= xx (which becomes the new pointer), else exhaustion with pointer max xx (maxf+1) *)
-  Theorem sm_step_index_char last x ml :
-    sm_step_index State project outside maxf last x ml =
-      let xx := Z.max x ((if x =? ml then -1 else last) + 1) in
+  (* ANY call: the search starts at xx = max x (p + 1), p = the logged pointer on a restart (x = max_logged), else the
+     skip pointer; it returns the first admissible index >= xx, which becomes the skip pointer, and the logged pointer
+     when x < max_logged (or max_logged < 0); else exhaustion with skip pointer max xx (maxf+1) *)
+  Theorem sm_step_index_char st x ml :
+    sm_step_index State project outside maxf st x ml =
+      let xx := Z.max x ((if x =? ml then snd st else fst st) + 1) in
       match G xx with
-      | [] => (None, Z.max xx (maxf + 1))
-      | i :: _ => (Some i, i)
+      | [] => (None, (Z.max xx (maxf + 1), snd st))
+      | i :: _ => (Some i, (i, if (x <? ml) || (ml <? 0) then i else snd st))
       end.
   Proof.
-    unfold sm_step_index. cbn zeta. set (xx := Z.max x ((if x =? ml then -1 else last) + 1)).
-    rewrite sm_search_goods. fold (G xx). destruct (G xx); [f_equal; lia | reflexivity].
+    unfold sm_step_index. cbn zeta. set (xx := Z.max x ((if x =? ml then snd st else fst st) + 1)).
+    rewrite sm_search_goods. fold (G xx). destruct (G xx); cbn [fst snd]; [f_equal; f_equal; lia | reflexivity].
   Qed.
 
-  (* increasing drive x = 0,1,2,... WITH resets: a reset at call x is harmless when every index below x
-     (and <= maxf) is admissible, i.e. when nothing has been skipped before the reset *)
-  Definition sm_allok_below (x : Z) : Prop := forall i, 0 <= i < x -> i <= maxf -> ok i = true.
-
-  Lemma sm_run_index_resets ml :
-    (forall x, ml x = x -> sm_allok_below x) ->
-    forall n x' last, Z.of_nat x' <= last + 1 ->
-      (sm_allok_below (Z.of_nat x') -> last + 1 = Z.of_nat x' \/ maxf < Z.of_nat x') ->
-      sm_run_index State project outside maxf last (map (fun k => (Z.of_nat k, ml (Z.of_nat k))) (seq x' n))
-        = sm_expect n (G (last + 1)).
+  Lemma sm_G_mono_nil b : forall n a, Z.to_nat (b - a) = n -> a <= b -> G a = [] -> G b = [].
   Proof.
-    intros Hml. induction n as [|n IH]; intros x' last Hle Hinv; [reflexivity|].
-    cbn [seq map sm_run_index sm_expect fst snd]. cbn zeta. set (x := Z.of_nat x') in *.
+    induction n as [|n IH]; intros a Hn Hab H.
+    - replace b with a by lia. exact H.
+    - destruct (Z_lt_le_dec maxf a) as [Hm|Hm]; [apply sm_G_empty; lia|].
+      rewrite sm_G_unfold in H by lia. destruct (sm_ok State project outside a); [discriminate|].
+      apply (IH (a + 1)); [lia | lia | exact H].
+  Qed.
+
+  Lemma sm_G_nil_le a b : G a = [] -> a <= b -> G b = [].
+  Proof. intros H Hab. apply (sm_G_mono_nil b (Z.to_nat (b - a)) a eq_refl Hab H). Qed.
+
+  (* invariant after a call with x = prev: both pointers sit on the admissible index of the right rank *)
+  Definition sm_inv (M prev : Z) (st : Z * Z) : Prop :=
+    prev <= fst st /\ G (fst st + 1) = skipn (Z.to_nat (prev + 1)) good
+    /\ G (snd st + 1) = skipn (Z.to_nat (Z.min prev (M - 1) + 1)) good
+    /\ (Z.min prev (M - 1) <= snd st \/ skipn (Z.to_nat (Z.min prev (M - 1) + 1)) good = []).
+
+  Lemma sm_inv_init M : 1 <= M -> sm_inv M (-1) sm_init.
+  Proof.
+    intros HM. unfold sm_inv, sm_init. cbn [fst snd]. rewrite Z.min_l by lia. change (-1 + 1) with 0.
+    change (Z.to_nat 0) with O. cbn [skipn]. rewrite sm_G_0. split; [lia|]. split; [reflexivity|]. split; [reflexivity|]. left. lia.
+  Qed.
+
+  Lemma sm_step_protocol M prev st x ml : 1 <= M -> -1 <= prev -> sm_inv M prev st ->
+    (ml = M \/ (ml < 0 /\ x < M)) ->
+    (x = prev + 1 \/ (x = M /\ M <= prev) \/ (x = prev /\ 0 <= prev /\ Z.of_nat (length good) <= prev)) ->
+    fst (sm_step_index State project outside maxf st x ml) = nth_error good (Z.to_nat x)
+    /\ sm_inv M x (snd (sm_step_index State project outside maxf st x ml)).
+  Proof.
+    intros HM Hprev [A1 [A2 [B1 B2]]] Hml Hx.
+    assert (Hx0 : 0 <= x) by lia.
+    set (r := Z.min prev (M - 1)) in *.
     rewrite sm_step_index_char. cbn zeta.
-    (* the search start: either last + 1, or (on a harmless reset past maxf) some point past maxf *)
-    set (xx := Z.max x ((if x =? ml x then -1 else last) + 1)).
-    assert (Hxx : xx = last + 1 \/ (maxf < xx /\ maxf < last + 1)).
-    { unfold xx. destruct (x =? ml x) eqn:E.
-      - apply Z.eqb_eq in E. symmetry in E. destruct (Hinv (Hml x E)) as [H|H]; [left; lia | right; lia].
-      - left. lia. }
-    assert (HG : G xx = G (last + 1)).
-    { destruct Hxx as [->|[H1 H2]]; [reflexivity|]. rewrite !sm_G_empty by lia. reflexivity. }
-    rewrite HG. replace (Z.of_nat (S x')) with (x + 1) in * by (unfold x; lia).
-    destruct (G (last + 1)) as [|i rest] eqn:EG; cbn [fst snd].
-    - f_equal. rewrite (IH (S x')).
-      + rewrite sm_G_empty by lia. reflexivity.
-      + replace (Z.of_nat (S x')) with (x + 1) by (unfold x; lia). lia.
-      + replace (Z.of_nat (S x')) with (x + 1) by (unfold x; lia). intros Hall.
-        right. assert (Hb : sm_allok_below x) by (intros j Hj; apply Hall; lia).
-        destruct (Hinv Hb) as [E|E]; [|lia].
-        destruct (Z_le_gt_dec x maxf) as [Hxm|]; [exfalso | lia].
-        rewrite E in EG. rewrite sm_G_unfold in EG by lia.
-        rewrite (Hall x) in EG by lia. discriminate.
-    - destruct (sm_G_head _ _ _ _ _ _ _ EG) as [Hi [Hoki Hrest]]. f_equal. rewrite (IH (S x')).
-      + rewrite Hrest. reflexivity.
-      + replace (Z.of_nat (S x')) with (x + 1) by (unfold x; lia). lia.
-      + replace (Z.of_nat (S x')) with (x + 1) by (unfold x; lia). intros Hall.
-        assert (Hb : sm_allok_below x) by (intros j Hj; apply Hall; lia).
-        destruct (Hinv Hb) as [E|E]; [|right; lia]. left.
-        destruct (Z_le_gt_dec x maxf) as [Hxm|]; [|lia].
-        rewrite E in EG. rewrite sm_G_unfold in EG by lia. rewrite (Hall x) in EG by lia.
-        injection EG as <- _. reflexivity.
+    set (xx := Z.max x ((if x =? ml then snd st else fst st) + 1)).
+    assert (Hxx : x <= xx) by (unfold xx; lia).
+    (* the search starts where the admissible indices of rank >= x start *)
+    assert (HG : G xx = skipn (Z.to_nat x) good).
+    { unfold xx. destruct (x =? ml) eqn:E.
+      - apply Z.eqb_eq in E. assert (ExM : x = M) by lia.
+        assert (Er : r + 1 = x) by (unfold r; lia). rewrite Er in B1, B2.
+        destruct B2 as [B2|B2].
+        + rewrite Z.max_r by lia. exact B1.
+        + rewrite B2 in *. apply (sm_G_nil_le (snd st + 1)); [exact B1 | lia].
+      - apply Z.eqb_neq in E. destruct Hx as [Hx|[[Hx1 Hx2]|[Hx1 [Hx2 Hx3]]]].
+        + rewrite Z.max_r by lia. rewrite A2, Hx. reflexivity.
+        + exfalso. lia.
+        + rewrite Z.max_r by lia. rewrite A2.
+          rewrite !skipn_all2 by lia. reflexivity. }
+    rewrite HG. rewrite <- skipn_head_nth.
+    assert (ES : Z.to_nat (x + 1) = S (Z.to_nat x)) by lia.
+    (* the logged pointer is written iff x < M *)
+    assert (Hlog : ((x <? ml) || (ml <? 0)) = (x <? M)).
+    { destruct Hml as [->|[H1 H2]]; [destruct (M <? 0) eqn:E; [apply Z.ltb_lt in E; lia | apply orb_false_r]|].
+      assert ((ml <? 0) = true) as -> by (apply Z.ltb_lt; lia). rewrite orb_true_r. symmetry. apply Z.ltb_lt. lia. }
+    (* above the storage the rank of the logged state does not move *)
+    assert (Hr : M <= x -> Z.min x (M - 1) = r) by (intros; unfold r; lia).
+    destruct (skipn (Z.to_nat x) good) as [|i rest] eqn:Es; cbn [fst snd].
+    - split; [reflexivity|]. unfold sm_inv. cbn [fst snd].
+      split; [lia|]. split; [rewrite sm_G_empty by lia; rewrite ES; symmetry; apply skipn_nil_S; exact Es|].
+      destruct (Z_lt_le_dec x M) as [HxM|HxM].
+      + rewrite Z.min_l by lia. rewrite ES, (skipn_nil_S _ _ Es).
+        split; [|right; reflexivity].
+        destruct Hx as [Hx|[[Hx1 Hx2]|[Hx1 [Hx2 Hx3]]]]; [|lia|].
+        * assert (Er : r + 1 = x) by (unfold r; lia). rewrite Er, Es in B1. exact B1.
+        * assert (Er : r + 1 = x + 1) by (unfold r; lia). rewrite Er, ES, (skipn_nil_S _ _ Es) in B1. exact B1.
+      + rewrite (Hr HxM). split; assumption.
+    - split; [reflexivity|].
+      destruct (sm_G_head _ _ _ _ _ _ _ HG) as [Hi [_ Hrest]].
+      unfold sm_inv. cbn [fst snd]. rewrite Hlog.
+      split; [lia|]. split; [rewrite <- Hrest, ES; symmetry; eapply skipn_tail_S; exact Es|].
+      destruct (x <? M) eqn:E; [apply Z.ltb_lt in E | apply Z.ltb_ge in E].
+      + rewrite Z.min_l by lia. split; [rewrite <- Hrest, ES; symmetry; eapply skipn_tail_S; exact Es | left; lia].
+      + rewrite (Hr E). split; assumption.
   Qed.
 
-  Theorem sm_increasing_with_resets : forall ml,
-    (forall x, ml x = x -> forall i, 0 <= i < x -> i <= maxf -> outside (project i) = false) ->
-    forall n,
-    sm_run_index State project outside maxf (-1) (sm_incr_calls ml n) =
+  Lemma sm_run_protocol M : 1 <= M -> forall calls prev st, -1 <= prev -> sm_inv M prev st ->
+    sm_protocol M (Z.of_nat (length good)) prev calls ->
+    sm_run_index State project outside maxf st calls = map (fun c => nth_error good (Z.to_nat (fst c))) calls.
+  Proof.
+    intros HM. induction calls as [|c r IH]; intros prev st Hprev Hinv Hp; [reflexivity|].
+    destruct Hp as [Hml [Hx Hp]]. cbn [sm_run_index map]. cbn zeta.
+    destruct (sm_step_protocol M prev st (fst c) (snd c) HM Hprev Hinv Hml Hx) as [Hout Hinv'].
+    rewrite Hout. f_equal. apply (IH (fst c)); [lia | exact Hinv' | exact Hp].
+  Qed.
+
+  (* restarts are harmless for EVERY enumeration: under the protocol the call with rank x returns the x-th admissible
+     index (exhaustion when there is none), whatever was skipped before and however often a sample restarts at x = M *)
+  Theorem sm_protocol_spec : forall M calls, 1 <= M ->
+    sm_protocol M (Z.of_nat (length good)) (-1) calls ->
+    sm_run_index State project outside maxf sm_init calls = map (fun c => nth_error good (Z.to_nat (fst c))) calls.
+  Proof. intros M calls HM Hp. apply (sm_run_protocol M HM calls (-1)); [lia | apply sm_inv_init; exact HM | exact Hp]. Qed.
+
+  Lemma sm_incr_protocol M n0 : forall n s prev, Z.of_nat s = prev + 1 ->
+    sm_protocol M n0 prev (map (fun k => (Z.of_nat k, M)) (seq s n)).
+  Proof.
+    induction n as [|n IH]; intros s prev Hs; cbn [seq map sm_protocol]; [exact I|]. cbn [fst snd].
+    split; [left; reflexivity|]. split; [left; exact Hs|]. apply IH. lia.
+  Qed.
+
+  (* the increasing drive x = 0,1,2,... with max_logged = M (a restart at call M) *)
+  Theorem sm_increasing_const_ml : forall M n, 1 <= M ->
+    sm_run_index State project outside maxf sm_init (sm_incr_calls (fun _ => M) n) =
       firstn n (map Some good ++ repeat None n).
   Proof.
-    intros ml Hml n. unfold sm_incr_calls. rewrite (sm_run_index_resets ml).
-    - change (-1 + 1) with 0. rewrite sm_G_0. apply sm_expect_firstn. lia.
-    - intros x E i Hi Him. unfold sm_ok. rewrite (Hml x E i Hi Him). reflexivity.
-    - cbn. lia.
-    - intros _. left. reflexivity.
+    intros M n HM. unfold sm_incr_calls. rewrite (sm_protocol_spec M) by (assumption || (apply sm_incr_protocol; reflexivity)).
+    rewrite map_map. cbn [fst].
+    rewrite (map_ext _ (nth_error good)) by (intros; rewrite Nat2Z.id; reflexivity).
+    rewrite map_nth_error_seq_expect. apply sm_expect_firstn. lia.
   Qed.
 
-  (* enumerations without inadmissible indices (1-d chains, centred n-d grids under the full box): resets are harmless *)
-  Corollary sm_all_admissible_resets :
-    (forall i, 0 <= i <= maxf -> outside (project i) = false) ->
-    forall ml n,
-    sm_run_index State project outside maxf (-1) (sm_incr_calls ml n) =
-      firstn n (map Some good ++ repeat None n).
-  Proof. intros Hall ml n. apply sm_increasing_with_resets. intros x _ i Hi Him. apply Hall. lia. Qed.
+  Theorem sm_increasing_states_const_ml : forall M n, 1 <= M -> (length good <= n)%nat ->
+    sm_run State project outside maxf sm_init (sm_incr_calls (fun _ => M) n) =
+      map (fun i => (Some (project i), false)) good ++ repeat (None, true) (n - length good).
+  Proof.
+    intros M n HM Hn. rewrite sm_run_lift, sm_increasing_const_ml by assumption.
+    rewrite <- (sm_expect_firstn n n good) by lia. rewrite sm_expect_app by assumption.
+    rewrite map_app, map_map. f_equal.
+    induction (n - length good)%nat as [|k IHk]; cbn; [reflexivity | rewrite IHk; reflexivity].
+  Qed.
 End SMReset.
 
-(* ... and harmful otherwise: after a skipped index a reset at call x restarts the search at the INDEX x, so an
-   already returned index comes back.  indices 0..3, index 1 inadmissible, reset at call 2 (max_logged = 2):
-   calls 0,1,2,3 return 0, 2, 2, 3.  (Same root cause as F-C02-7: InversionMethod passes max_logged = _max_storage.) *)
-Theorem sm_reset_refuted : exists (outside : Z -> bool) (maxf : Z) (ml : Z -> Z) (n : nat),
-  let returned := sm_run_index Z (fun i => i) outside maxf (-1) (sm_incr_calls ml n) in
-  returned = [Some 0; Some 2; Some 2; Some 3] /\ ~ NoDup returned.
+(* non-vacuity, and the witness of the old finding F-C14-6 on the repaired method: indices 0..3, index 1 inadmissible,
+   max_logged = 2: calls 0,1,2,3 return 0, 2, 3, exhaustion (the unrepaired method returned 0, 2, 2, 3); then two samples
+   restarting at rank 2 *)
+Example sm_restart_nonvacuous :
+  sm_run_index Z (fun i => i) (fun i => i =? 1) 3 sm_init (sm_incr_calls (fun _ => 2) 4) = [Some 0; Some 2; Some 3; None]
+  /\ sm_run_index Z (fun i => i) (fun i => i =? 1) 3 sm_init [(0, -1); (1, 2); (2, 2); (2, 2); (3, 2); (2, 2)]
+     = [Some 0; Some 2; Some 3; Some 3; None; Some 3]
+  /\ sm_protocol 2 3 (-1) [(0, -1); (1, 2); (2, 2); (2, 2); (3, 2); (2, 2)].
 Proof.
-  exists (fun i => i =? 1), 3, (fun _ => 2), 4%nat. cbn zeta.
-  assert (E : sm_run_index Z (fun i => i) (fun i => i =? 1) 3 (-1) (sm_incr_calls (fun _ => 2) 4)
-              = [Some 0; Some 2; Some 2; Some 3]) by (vm_compute; reflexivity).
-  rewrite E. split; [reflexivity|]. intro H. inversion H as [|? ? _ H1]; subst. inversion H1 as [|? ? H2 _]; subst.
-  apply H2. left. reflexivity.
+  split; [vm_compute; reflexivity|]. split; [vm_compute; reflexivity|].
+  cbn [sm_protocol fst snd].
+  repeat (split; [first [left; lia | right; lia] | split; [first [left; lia | right; left; lia | right; right; lia]|]]). exact I.
 Qed.
 
 (* ================= completeness: every admissible state exactly once ================= *)
@@ -429,7 +519,7 @@ Section SMComplete.
   Theorem sm_complete :
     let returned := map project (sm_good State project outside maxf) in
     (forall ml, (forall x, ml x <> x) -> forall n, (length returned <= n)%nat ->
-       sm_run State project outside maxf (-1) (sm_incr_calls ml n) =
+       sm_run State project outside maxf sm_init (sm_incr_calls ml n) =
          map (fun s => (Some s, false)) returned ++ repeat (None, true) (n - length returned))
     /\ NoDup returned
     /\ (forall s, In s returned <-> valid s /\ outside s = false).
